@@ -2,7 +2,7 @@ import Driver.Stor
 
 /-! Driver for domain C03 (compaction): see `Driver/Stor.lean`.  Facts arrive as `name=yes|no`. -/
 namespace Driver.C03
-open Hv.Storage Driver.Stor
+open Hv.BlockStore Driver.BStor
 
 def findingId (s : DS) : String :=
   match s.staleEp with
@@ -17,7 +17,7 @@ def hooks : Hooks where
 
 def cfgOfArgs (kv : List (String × String)) : Cfg :=
   { r := ⟨boolArg kv "shortHeaderIsEOF", boolArg kv "tornDataIsEOF", false⟩,
-    syncFsyncs := true, closeFsyncs := boolArg kv "closeFsyncs", truncatesTornTail := false,
+    syncFsyncs := true, closeFsyncs := boolArg kv "closeFsyncs", truncatesTornTail := boolArg kv "truncatesTornTail",
     loadCleansTemp := boolArg kv "loadCleansTemp", rmTempLocked := boolArg kv "rmTempLocked",
     rmTempFromIndex := boolArg kv "rmTempFromIndex", rmTempCompactor := boolArg kv "rmTempCompactor" }
 
